@@ -71,6 +71,31 @@ Theorem C12_reply_parses_back : forall msize s m v st,
 Proof. exact tversion_reply_parses. Qed.
 Print Assumptions C12_reply_parses_back.
 
+(** whole sessions: every Tversion of a connection (first or later) is answered by the same function of the
+    request alone, so it always gets its Rversion; the state is the one of the last accepted request *)
+Theorem C12_session : forall st reqs,
+  session_run st reqs = (last_accepted st reqs, map (fun q => fst (tversion_handle (fst q) (snd q))) reqs).
+Proof. exact session_run_spec. Qed.
+Print Assumptions C12_session.
+Theorem C12_session_all_answered : forall st reqs, List.length (snd (session_run st reqs)) = List.length reqs.
+Proof. exact session_reply_count. Qed.
+(** ... and after any session the server uses exactly the msize and version of an Rversion it sent (the last accepted one) *)
+Theorem C12_session_state_announced : forall st reqs,
+  let '(st', replies) := session_run st reqs in
+  st' = st \/
+  exists m v, In (m, v) replies /\ cs_msize st' = m /\ m <> 0 /\
+              parse_version v = Some (V9P2000L, cs_version st') /\ cs_version st' <= p9_highestSupportedVersion.
+Proof. exact session_state_announced. Qed.
+Print Assumptions C12_session_state_announced.
+(** Note: "a Tversion never gets an error" holds of [tversion_handle] by the shape of its result (the handler has no
+    error return); what can still produce Rlerror or end the connection is the frame layer (a frame longer than the
+    current msize, an undecodable body, a tag still in flight): that is C02/C06, and [wire_session] states the one
+    interaction with C12 (a Tversion frame longer than the msize negotiated so far ends the connection). *)
+
+(** a client can only start from a message size above every fixed part *)
+Theorem C12_with_message_size : forall m m', with_message_size m = Some m' -> largestFixedSize < m'.
+Proof. exact with_message_size_large. Qed.
+
 (** NewClient: if it returns a client, the last reply was an Rversion whose
     string is a 9P2000.L version, and the client uses that version, the smaller
     of its own and the announced msize, and the payload size computed from it *)
@@ -113,4 +138,9 @@ Proof. vm_compute. repeat split. Qed.
 Example C12_ex_client :
   new_client_top 65536 [VErr 11; VRversion 8192 "9P2000.L.Google.6"]
   = ([(65536, "9P2000.L.Google.7"); (65536, "9P2000.L.Google.6")], NCOk 6 8192 7680).
+Proof. vm_compute. reflexivity. Qed.
+Example C12_ex_session :
+  session_run cstate0 [(8192, "9P2000.L.Google.7"); (0, "9P2000.L"); (4096, "9P2000.L.Google.2"); (100, "9P2000.u")]
+  = ({| cs_msize := 4096; cs_version := 2 |},
+     [(8192, "9P2000.L.Google.7"); (0, "unknown"); (4096, "9P2000.L.Google.2"); (0, "unknown")]).
 Proof. vm_compute. reflexivity. Qed.
